@@ -170,3 +170,10 @@ MUTANTS += [
     dict(prop="C17", name="adjust accepts width 0", file=AO, old="    if width < 1:", new="    if width < 0:"),
     dict(prop="C17", name="extend_dim open end not shrunk (original defect)", file=AO, old="    if right_closed:\n        stop += eps\n    else:\n        stop -= eps\n", new="    if right_closed:\n        stop += eps\n"),
 ]
+MUTANTS += [
+    dict(prop="C20", name="shape from array.shape (original defect)", file=GO, old="        (array.sizes[ydim], array.sizes[xdim]),", new="        array.shape,"),
+    dict(prop="C20", name="shape transposed", file=GO, old="        (array.sizes[ydim], array.sizes[xdim]),", new="        (array.sizes[xdim], array.sizes[ydim]),"),
+    dict(prop="C20", name="length check dropped", file=GO, old="    if len(values) != len(geometries):\n        raise ValueError(\n            \"The number of values must match the number of geometries.\"\n        )\n", new=""),
+    dict(prop="C20", name="result dims swapped", file=GO, old="        dims=(xdim, ydim),", new="        dims=(ydim, xdim),"),
+    dict(prop="C20", name="y index looked up on the x axis", file=GO, old="                    get_coord_index(array, ydim, y, raise_error=False),", new="                    get_coord_index(array, xdim, y, raise_error=False),"),
+]
